@@ -35,7 +35,7 @@ Definition model_dump (V Rn : N) (e : eng) : dump :=
       (lock_count (ltab e))
       (N.of_nat (length (txs e))).
 
-Notation mstep := (rstep gen_insert_locks_row).
+Notation mstep := (rstep gen_insert_locks_row gen_undo_btree_guarded).
 
 Definition obs := (list N * dump)%type.
 Fixpoint model_ok (V Rn : N) (e : eng) (ops : list rop) (os : list obs) : bool :=
@@ -87,7 +87,9 @@ Fixpoint index_check (o : ost) (rws : list (N * (N * N))) (qs : list cond) (ans 
       let want := map fst (filter (fun ir => evalc c (R true (fst (snd ir)) (snd (snd ir)))) rws) in
       if lN_eqb want a then index_check o rws qs' ans' hit
       else let '(col, bt) := cond_col c in
-           if mem col (if bt then o_ddlb o else o_ddlh o) then index_check o rws qs' ans' true else None
+           if mem col (if bt then o_ddlb o else o_ddlh o) then index_check o rws qs' ans' true
+           (* a rollback of class 0 has already rewritten a row under a foreign change: its index entries follow *)
+           else if mem 0 (o_known o) then index_check o rws qs' ans' hit else None
   | _, _ => None
   end.
 
@@ -149,6 +151,22 @@ Fixpoint on_rollback (tx : N) (pre post : dump) (ids : list N) (o : ost) : optio
 
 Definition ok_ret (ret : list N) : bool := match ret with 0 :: _ => true | _ => false end.
 
+(* rows a successful update / delete matched (and therefore locked and logged), whether or not their values moved *)
+Definition matched_ids (op : rop) (pre : dump) : list N :=
+  match op with
+  | RUpdate _ c _ _ | RDelete _ c => map fst (filter (fun ir => evalc c (R true (fst (snd ir)) (snd (snd ir)))) (d_rows pre))
+  | _ => []
+  end.
+Definition touch_more (tx : N) (pre : dump) (ids : list N) (o : ost) : ost :=
+  fold_left (fun o rid =>
+    match find_touch (o_touch o) tx rid with
+    | Some t => OS (o_active o) (o_done o)
+                   ((tx, rid, t_pre t, o_now o) :: filter (fun t' => negb (N.eqb (t_tx t') tx && N.eqb (t_rid t') rid)) (o_touch o))
+                   (o_foreign o) (o_ddlh o) (o_ddlb o) (o_now o) (o_known o)
+    | None => OS (o_active o) (o_done o) ((tx, rid, row_at pre rid, o_now o) :: o_touch o)
+                 (o_foreign o) (o_ddlh o) (o_ddlb o) (o_now o) (o_known o)
+    end) ids o.
+
 Definition ostep (V ltmo : N) (o : ost) (op : rop) (ret : list N) (pre post : dump) : option ost :=
   let ch := changed pre post in
   let o1 :=
@@ -159,7 +177,7 @@ Definition ostep (V ltmo : N) (o : ost) (op : rop) (ret : list N) (pre post : du
         | Some tx =>
             (* finished transactions cannot be used again *)
             if mem tx (o_done o) then (if lN_eqb ret [1] && is_nil ch then Some o else None)
-            else if ok_ret ret then on_changes ltmo (Some tx) pre ch o
+            else if ok_ret ret then option_map (touch_more tx pre (matched_ids op pre)) (on_changes ltmo (Some tx) pre ch o)
             else if is_nil ch then Some o else None        (* a refused statement changes nothing *)
         | None => if ok_ret ret then on_changes ltmo None pre ch o else if is_nil ch then Some o else None
         end
